@@ -209,6 +209,24 @@ def run(ctx):
                 bad = next(n for n, x, y, u, v in zip(ns, a, ea, b, eb) if x != y or u != v)
                 ctx.violation("C14/gray-utils/array-form/%s" % tag, "array form (%s) differs from the scalar function at n=%d" % (tag, bad),
                               {"n": bad, "form": tag})
+    # array forms on the large integers too (up to 2^60, powers of two and their neighbours): element-wise the reference, and mutually inverse
+    bigs = sorted(set(n for n in (rnd + lits + [1 << e for e in range(16, 61)] + [(1 << e) - 1 for e in range(16, 61)] + [(1 << e) + 1 for e in range(16, 60)]) if 0 <= n <= (1 << 60)))
+    for tag, arr in (("list", bigs), ("long", torch.tensor(bigs, dtype=torch.int64))):
+        a = [int(v) for v in U.binary_array_to_gray(arr).tolist()]
+        b = [int(v) for v in U.gray_array_to_binary(arr).tolist()]
+        ctx.count("gray-array-big-" + tag, 2 * len(bigs))
+        excl = {k for l in (exc["b2g"], exc["g2b"]) for kv in l for k in kv}
+        for n, x, u in zip(bigs, a, b):
+            if n in excl:
+                continue
+            if x != gray_ref(n) or u != ungray_ref(n):
+                ctx.violation("C14/gray-utils/array-form/%s" % tag, "array form (%s) at n=%d: binary_array_to_gray gives %d (n xor n>>1 is %d), gray_array_to_binary gives %d (prefix xor is %d)" % (
+                    tag, n, x, gray_ref(n), u, ungray_ref(n)), {"n": n, "form": tag})
+                break
+        back = [int(v) for v in U.gray_array_to_binary(torch.tensor(a, dtype=torch.int64) if tag == "long" else a).tolist()]
+        bad = [n for n, r_ in zip(bigs, back) if n != r_ and n not in excl and gray_ref(n) not in excl]
+        if bad:
+            ctx.violation("C14/gray-utils/array-form/%s" % tag, "array forms are not mutually inverse at n=%d" % bad[0], {"n": bad[0], "form": tag})
     if len(U.binary_array_to_gray([])) != 0 or len(U.gray_array_to_binary(torch.tensor([]))) != 0:
         ctx.violation("C14/gray-utils/array-form/empty", "empty array not mapped to empty array", {})
     for f in (U.binary_to_gray, U.gray_to_binary):
